@@ -2,6 +2,7 @@ package sym
 
 import (
 	"fmt"
+	"os"
 	"runtime/debug"
 	"sort"
 	"strings"
@@ -26,6 +27,11 @@ type Config struct {
 	Trace        bool
 	Deadline     time.Time
 	Tier         int
+	Progress     bool
+	NoSlice      bool
+	OneShot      bool
+	NoModelGuide bool
+	FastTimeoutMs int
 }
 
 type ModelFn func(in *Interp, caller *frame, fn *ssa.Function, args []Val) Val
@@ -42,7 +48,7 @@ type Engine struct {
 
 	mu       sync.Mutex
 	cond     *sync.Cond
-	queue    [][]Decision
+	queue    []WorkItem
 	active   int
 	stopped  bool
 
@@ -64,6 +70,7 @@ type Engine struct {
 	LimitHits   map[string]int
 	SolverStats []SolverStat
 	EndReached  int
+	Rescues     int
 }
 
 type SolverStat struct {
@@ -98,21 +105,28 @@ func (e *Engine) reset() {
 	e.LimitHits = map[string]int{}
 	e.SolverStats = nil
 	e.EndReached = 0
+	e.Rescues = 0
 }
 
-func (e *Engine) push(p []Decision) {
+// WorkItem is an unexplored path prefix together with a model of its path condition.
+type WorkItem struct {
+	Prefix []Decision
+	Model  *smt.Model
+}
+
+func (e *Engine) push(p WorkItem) {
 	e.mu.Lock()
 	e.queue = append(e.queue, p)
 	e.mu.Unlock()
 	e.cond.Signal()
 }
 
-func (e *Engine) pop() ([]Decision, bool) {
+func (e *Engine) pop() (WorkItem, bool) {
 	e.mu.Lock()
 	defer e.mu.Unlock()
 	for {
 		if e.stopped {
-			return nil, false
+			return WorkItem{}, false
 		}
 		if n := len(e.queue); n > 0 {
 			p := e.queue[n-1]
@@ -122,7 +136,7 @@ func (e *Engine) pop() ([]Decision, bool) {
 		}
 		if e.active == 0 {
 			e.cond.Broadcast()
-			return nil, false
+			return WorkItem{}, false
 		}
 		e.cond.Wait()
 	}
@@ -134,6 +148,12 @@ func (e *Engine) done() {
 	if e.active == 0 && len(e.queue) == 0 {
 		e.cond.Broadcast()
 	}
+	e.mu.Unlock()
+}
+
+func (e *Engine) noteRescue(r smt.Result) {
+	e.mu.Lock()
+	e.Rescues++
 	e.mu.Unlock()
 }
 
@@ -224,6 +244,8 @@ type Interp struct {
 	W   *Engine
 	ctx *smt.Ctx
 	sol *smt.Solver
+	sol2    *smt.Solver // fallback: one-shot mode with the full timeout
+	lastSol *smt.Solver
 
 	prefix     []Decision
 	pos        int
@@ -231,6 +253,10 @@ type Interp struct {
 	pc         []*smt.Term
 	synced     int
 	solverOpen bool
+	modelScope bool
+	model      *smt.Model
+	evaluator  *smt.Evaluator
+	symVars    []*smt.Term
 	ndecisions int
 	nvar       int
 	nsymkey    int
@@ -278,8 +304,9 @@ type PathResult struct {
 type threadKill struct{}
 
 // runPath executes the harness once along prefix.
-func (e *Engine) runPath(sol *smt.Solver, prefix []Decision) (res PathResult) {
-	in := &Interp{W: e, ctx: smt.NewCtx(), sol: sol, prefix: prefix,
+func (e *Engine) runPath(sol, sol2 *smt.Solver, item WorkItem) (res PathResult) {
+	prefix := item.Prefix
+	in := &Interp{W: e, ctx: smt.NewCtx(), sol: sol, sol2: sol2, prefix: prefix, model: item.Model,
 		globals: map[*ssa.Global]*Val{}, inited: map[*ssa.Package]bool{},
 		mutexes: map[*Val]*mutexState{}, side: map[string]interface{}{},
 		fnsUsed: map[*ssa.Function]int{}, modelsUsed: map[string]int{},
@@ -291,9 +318,6 @@ func (e *Engine) runPath(sol *smt.Solver, prefix []Decision) (res PathResult) {
 		r := recover()
 		// kill remaining threads
 		in.killThreads()
-		if in.solverOpen {
-			// model for unrecovered panic must be taken before scopes are dropped: done below
-		}
 		switch p := r.(type) {
 		case nil:
 			res = PathResult{"ok", ""}
@@ -307,9 +331,9 @@ func (e *Engine) runPath(sol *smt.Solver, prefix []Decision) (res PathResult) {
 		default:
 			res = PathResult{"internal", fmt.Sprintf("%v\n%s", r, debug.Stack())}
 		}
-		if in.solverOpen {
+		if in.solverOpen || in.modelScope {
 			sol.ResetScopes()
-			in.solverOpen = false
+			in.solverOpen, in.modelScope = false, false
 		}
 		e.finishPath(in, res)
 	}()
@@ -324,9 +348,7 @@ func (in *Interp) reportPanic(p *goPanic) {
 	if in.replayingStrict() {
 		return
 	}
-	in.syncSolver()
-	in.sol.Push()
-	if r := in.sol.Check(); r == smt.Sat {
+	if r := in.solve(); r == smt.Sat {
 		f := Failure{Kind: "panic", Msg: p.msg, Site: "", Harness: in.harness, Stack: p.stack}
 		if len(p.stack) > 0 {
 			f.Site = p.stack[0]
@@ -334,10 +356,7 @@ func (in *Interp) reportPanic(p *goPanic) {
 		f.Inputs = in.modelInputs()
 		f.Decisions = append([]Decision{}, in.taken...)
 		in.W.addFailure(f)
-	} else if r == smt.Unknown {
-		in.W.noteUnknown(in)
 	}
-	in.sol.Pop()
 }
 
 // replayingStrict: the path ended while still replaying its prefix (another path owns the report).
@@ -385,26 +404,39 @@ func (e *Engine) finishPath(in *Interp, res PathResult) {
 func (e *Engine) Run(fn *ssa.Function) error {
 	e.reset()
 	e.Harness = fn
-	e.queue = [][]Decision{nil}
+	e.queue = []WorkItem{{Model: smt.NewModel()}}
 	var wg sync.WaitGroup
 	errs := make(chan error, e.Cfg.Workers)
 	for w := 0; w < e.Cfg.Workers; w++ {
 		wg.Add(1)
 		go func() {
 			defer wg.Done()
-			sol, err := smt.NewSolver(e.Cfg.Solver, e.Cfg.TimeoutMs)
+			t1 := e.Cfg.TimeoutMs
+			if !e.Cfg.OneShot && e.Cfg.FastTimeoutMs > 0 && e.Cfg.FastTimeoutMs < t1 {
+				t1 = e.Cfg.FastTimeoutMs
+			}
+			sol, err := smt.NewSolver(e.Cfg.Solver, t1)
 			if err != nil {
 				errs <- err
 				return
 			}
 			defer sol.Close()
+			var sol2 *smt.Solver
+			if !e.Cfg.OneShot {
+				sol2, err = smt.NewSolver(e.Cfg.Solver, e.Cfg.TimeoutMs)
+				if err != nil {
+					errs <- err
+					return
+				}
+				defer sol2.Close()
+			}
 			n := 0
 			for {
 				p, ok := e.pop()
 				if !ok {
 					break
 				}
-				e.runPath(sol, p)
+				e.runPath(sol, sol2, p)
 				e.done()
 				n++
 				if n%200 == 0 || sol.Errors > 0 && strings.Contains(sol.LastErr, "died") {
@@ -413,9 +445,30 @@ func (e *Engine) Run(fn *ssa.Function) error {
 				}
 			}
 			e.collectSolver(sol)
+			if sol2 != nil {
+				e.collectSolver(sol2)
+			}
+		}()
+	}
+	stopProg := make(chan struct{})
+	if e.Cfg.Progress {
+		go func() {
+			tk := time.NewTicker(10 * time.Second)
+			defer tk.Stop()
+			for {
+				select {
+				case <-stopProg:
+					return
+				case <-tk.C:
+					e.mu.Lock()
+					fmt.Fprintf(os.Stderr, "  .. %s paths=%d queue=%d active=%d failures=%d outcomes=%v\n", fn.Name(), e.Paths, len(e.queue), e.active, len(e.Failures), e.Outcomes)
+					e.mu.Unlock()
+				}
+			}
 		}()
 	}
 	wg.Wait()
+	close(stopProg)
 	select {
 	case err := <-errs:
 		return err
@@ -574,12 +627,9 @@ func (in *Interp) blockedForever(why string) {
 	}
 	msg := "main thread blocked forever on " + why + ";" + sb.String()
 	if !in.replayingStrict() {
-		in.syncSolver()
-		in.sol.Push()
-		if r := in.sol.Check(); r == smt.Sat {
+		if r := in.solve(); r == smt.Sat {
 			in.reportFailure("blocked", msg, in.cur.topSite(in))
 		}
-		in.sol.Pop()
 	}
 	in.endPath("blocked", msg)
 }
